@@ -13,6 +13,9 @@ MUTATIONS = (          # top-level fields of the operation, in document order
     ("m1 { x }",),
     ("a: m1 { x }", "b: m1 { y }", "m3"),
     ("m1 { x }", "__typename", "m2 { y }", "t: __typename", "m3"),          # meta-fields between the mutations (skipped entirely when introspection is disabled)
+    # (appended) a top-level field that fails while its value is COMPLETED (not in its resolver): contained like any field error, the later fields still run
+    ("m1 { x }", "msc", "m3"),
+    ("msc", "m2 { y sc }", "m3"),
 )
 # how the same top-level fields are spelled in the document: (template, operation name); %A = all fields, %H = the first, %T = the rest
 SHAPES = (
@@ -41,7 +44,7 @@ def _serial(sr: bool, di: bool, q: int, sh: int, k1: int, k2: int, kx: int, ky: 
     pre: 0 <= s0 <= 6 and 0 <= s1 <= 5 and 0 <= s2 <= 4 and 0 <= s3 <= 3 and 0 <= s4 <= 2 and 0 <= s5 <= 1 and s6 == 0
     pre: shard_of(q * 4 + cfg + sh + s0)
     pre: thorough() or sh == 0 or (q == 0 and s3 == 0)
-    pre: thorough() or q != 5 or (s3 == 0 and s4 == 0 and k1 <= 1 and k2 == 1 and kx == 1)
+    pre: thorough() or q < 5 or (s3 == 0 and s4 == 0 and k1 <= 1 and k2 == 1 and kx == 1)
     pre: not di or q == 5 or (thorough() and sh == 0)
     pre: not sr or thorough() or (sh <= 1 and s3 == 0)
     post: _
@@ -76,8 +79,8 @@ def _serial(sr: bool, di: bool, q: int, sh: int, k1: int, k2: int, kx: int, ky: 
         if base[0] == "ok":
             # (1) resolver invocations happen in the serial document order of the blocking baseline, whatever completes first
             # (2) a failing top-level field does not stop the later ones (same log as the baseline, which runs them)
-            top = [e for e in glog if e[1] in ("m1", "m2", "m3")]
-            ok = ok and [e for e in blog if e[1] in ("m1", "m2", "m3")] == top
+            top = [e for e in glog if e[1] in ("m1", "m2", "m3", "msc")]
+            ok = ok and [e for e in blog if e[1] in ("m1", "m2", "m3", "msc")] == top
             # sub-fields of top-level field i all run before top-level field i+1 is invoked
             ok = ok and serial_ok(glog, blog)
             # response keys in document order: compared through the ordered JSON text in agree()
@@ -91,7 +94,7 @@ def owners(log):
     """run-length compressed sequence of the top-level field each resolver invocation belongs to"""
     out = []
     for (_, key, rid, _p) in log:
-        o = key if key in ("m1", "m2", "m3") else rid
+        o = key if key in ("m1", "m2", "m3", "msc") else rid
         if not out or out[-1] != o:
             out.append(o)
     return out
@@ -108,7 +111,7 @@ def serial_ok(log, base_log=None):
 CONDITIONS = [
     Cond(
         name="serial", fn=_serial, quick=240, thorough=900, per_path=60, shards_quick=16, shards_thorough=20,
-        bound="6 mutation operations (1..3 top-level fields, nested custom sub-resolvers, aliases of the same field, meta-fields between the mutations) x introspection enabled / disabled x separate root types or ONE object type as query and mutation root x %d spellings of the same top-level fields (plain, named / typed inline / untyped inline / directive inline fragment, "
+        bound="8 mutation operations (1..3 top-level fields, a field failing while its value is completed, nested custom sub-resolvers, aliases of the same field, meta-fields between the mutations) x introspection enabled / disabled x separate root types or ONE object type as query and mutation root x %d spellings of the same top-level fields (plain, named / typed inline / untyped inline / directive inline fragment, "
               "nested fragments, split between selection and fragment, selected by name among several operations; quick: all spellings for the 3-field operation only, 4th completion choice fixed) x" % len(SHAPES) + " resolver kinds (m1: default/value/ResolverError/ValueError; m2, x: value/ResolverError; y: default/value) "
               "x 4 configurations x EVERY completion order (<= 7 in-flight tasks)",
         symbolic={"sr": "choice: shared root type", "di": "choice: disable_introspection", "q": "choice: operation", "sh": "choice: spelling", "k1,k2,kx,ky": "choice: resolver kinds / failure position", "cfg": "choice", "s0..s6": "choice: completion order"},
